@@ -210,6 +210,11 @@ def _decision_function(rep: Report, R: Roles, P: PassLoop, cfg_term: Term, count
                     return "none", _cfg_attr(y, cfg_term), None
         if t in end_atoms:
             return "end", None, None
+        if t[0] == "var" and "." not in t[1] and any(d in body for d in t[2]):
+            # a boolean local that this config iteration reads before storing into it: what reaches it is the store of an
+            # earlier config's iteration (or of the previous update)
+            return "other", None, (f"the decision reads '{t[1]}' as the previous config iteration left it (it is not reset at the "
+                                   f"start of every config iteration): a verdict leaks from one config to the next")
         used_attrs = {_cfg_attr(x, cfg_term) for x in subterms(t)} & set(UNITS)
         used_ctr = {role for role, var in counters.items() for lf in leaves(t) if lf[0] == "var" and lf[1] == var}
         if not used_attrs:
